@@ -57,10 +57,9 @@ package staged
 //@
 //@ func (*RateCalculator).MaxDuration
 //@   props C10
-//@   requires cumOK(s)
 //@   modifies nothing
-//@   loop 0 invariant -1 <= rangeindex && rangeindex < len(s.stages) && maxDuration == G10cum[rangeindex + 1]
-//@   ensures [sum] result == G10cum[len(s.stages)]
+//@   loop 0 invariant -1 <= rangeindex && rangeindex < len(s.stages) && (cumOK(s) ==> maxDuration == G10cum[rangeindex + 1])
+//@   ensures [sum] cumOK(s) ==> result == G10cum[len(s.stages)]
 //@
 //@ func (*RateCalculator).Rate
 //@   props C10 C14
@@ -77,3 +76,9 @@ package staged
 //@   ensures [elapsed] now - G10T0 >= G10cum[len(s.stages)] ==> result == 0
 //@   ensures [in-stage] now - G10T0 < G10cum[len(s.stages)] ==> s.current < len(s.stages) && G10cum[s.current] <= now - G10T0 && now - G10T0 < G10cum[s.current + 1]
 //@   ensures [between-targets] s.current < len(s.stages) ==> min(s.stages[s.current].StartTarget, s.stages[s.current].EndTarget) <= result && result <= max(s.stages[s.current].StartTarget, s.stages[s.current].EndTarget)
+//@
+//@ func CalculateStagedRate
+//@   props C14 C10
+//@   requires jitterArg == 0.0 || (jitterConsts(jitterArg) && GJin == GJout)
+//@   ensures [runnable] result.1 == nil ==> result.0 != nil && result.0.Rate != nil && result.0.IterationDuration > 0
+//@   ensures [rejected] result.1 != nil ==> result.0 == nil
